@@ -2,12 +2,12 @@
 separation, layer semantics are read off what reaches the hist2d kernel and what each returned layer is made of."""
 from __future__ import annotations
 
-from ..models import ModelEval, PyObj, Marker, Raised
-from ..peval import Model, Unsupported, ProgramRaised
+from ..models import ModelEval, PyObj, Raised
+from ..peval import Unsupported, ProgramRaised
 from ..poly import Poly, Fn
 from ..source import AnalysisError
 from ..symnp import Sym, Sc, Stack, np_hooks, ext_default, origin_of, reduce_stack
-from .core_models import RawTok, ArrTok, OpTok, UnitTok, core_hooks, tok_origin
+from .core_models import ArrTok, OpTok, UnitTok, core_hooks
 from .layer_folds import LAYER_Q
 from .map_folds import QT, walk, leaves
 
